@@ -4,7 +4,7 @@
    exclude_none; false: dump_json with nulls). *)
 From Coq Require Import ZArith List Bool String.
 From Common Require Import Str Res.
-From Rpc Require Import Json Models Proofs_Models.
+From Rpc Require Import Json Models Events Proofs_Models Proofs_Events.
 Import ListNotations.
 Open Scope Z_scope.
 
@@ -75,6 +75,25 @@ Print Assumptions C08_event_form_refuted_before_fix.
 Theorem C08_event_untagged_before_fix : exists m, all_tagged (event_json false m) = false.
 Proof. exact event_form_untagged_refuted. Qed.
 Print Assumptions C08_event_untagged_before_fix.
+
+(* the WebSocket event wire: every CoreListener event decodes back from its message *)
+Theorem C08_event_roundtrip : forall lax e, event_wf e = true -> decode_event lax (encode_event true e) = Ok e.
+Proof. exact event_roundtrip_lemma. Qed.
+Print Assumptions C08_event_roundtrip.
+
+Theorem C08_event_message_shape : forall by_alias e,
+  exists o, encode_event by_alias e = JObj o /\ lookup k_event o = Some (JStr (event_name e)).
+Proof. exact event_message_shape. Qed.
+Print Assumptions C08_event_message_shape.
+
+Theorem C08_event_tagged : forall e, all_tagged_values (encode_event true e) = true.
+Proof. exact event_tagged_lemma. Qed.
+Print Assumptions C08_event_tagged.
+
+Theorem C08_event_roundtrip_refuted_before_fix :
+  exists e, event_wf e = true /\ forall lax, decode_event lax (encode_event false e) <> Ok e.
+Proof. exact event_roundtrip_refuted. Qed.
+Print Assumptions C08_event_roundtrip_refuted_before_fix.
 
 (* non-vacuity *)
 Theorem C08_nonvacuous_wf :
